@@ -10,7 +10,7 @@ func init() {
 	register(&propDef{
 		id: "C10", title: "Each watcher receives exactly one Terminated for a watched actor",
 		technique: "who-may-construct/who-may-call, per-iteration CFG rule on the notification loop, symmetric-update rule on the watch relation, lockset",
-		explanation: "Decides: (1) Terminated messages are constructed only in freeWatchers (local and remote watcher loops) and by the wire deserializer; freeWatchers is called from exactly one site, inside doStop, after PostStop, and doStop runs at most once per incarnation (runningState test under stopLocker, C06); (2) in the local loop every iteration tells Terminated to the watcher at most once, only when the watcher is running, and un-watches it right after, so a second pass would not find it; the loop ranges over the snapshot returned by tree.watchers; the remote loop sends one RemoteTell per remote watcher address; (3) tree.watchers returns a freshly allocated snapshot built under the read lock; addWatcher/removeWatcher update both directions of the watch relation (watchers of the watchee, watchees of the watcher) in one critical section. Added after seed C10a: for a local watchee UnWatch always removes the watch relation, independent of the watchee's state. Added after seed C10b (dual of tell-only-if-running): an iteration of the local loop ends without a Tell only over the edge on which the watcher was found not running — no other skip.",
+		explanation: "Decides: (1) Terminated messages are constructed only in freeWatchers (local and remote watcher loops) and by the wire deserializer; freeWatchers is called from exactly one site, inside doStop, after PostStop, and doStop runs at most once per incarnation (runningState test under stopLocker, C06); (2) in the local loop every iteration tells Terminated to the watcher at most once, only when the watcher is running, and un-watches it right after, so a second pass would not find it; the loop ranges over the snapshot returned by tree.watchers; the remote loop sends one RemoteTell per remote watcher address; (3) tree.watchers returns a freshly allocated snapshot built under the read lock; addWatcher/removeWatcher update both directions of the watch relation (watchers of the watchee, watchees of the watcher) in one critical section. Added after seed C10a: for a local watchee UnWatch always removes the watch relation, independent of the watchee's state. Added after seed C10b (dual of tell-only-if-running): an iteration of the local loop ends without a Tell only over the edge on which the watcher was found not running — no other skip. Added with F25 (the 'by any path' clause): once PostStop was invoked every exit of doStop, the one on which the hook returned an error included, has called freeWatchers. The exit on which stopping the children failed (before PostStop) is not covered.",
 		assumptions: []string{"Watch/UnWatch racing the snapshot taken by freeWatchers", "delivery of the Terminated message itself (mailbox properties C02/C04)"},
 		minObl:     23,
 		run:        runC10,
@@ -65,6 +65,18 @@ func runC10(c *Ctx) {
 			}
 		}
 		c.Check(n == 1, "one-call-site", "freeWatchers has exactly one call site", c.P.Pos(fw.Decl.Pos()), "")
+		// "by any path": once PostStop was invoked the incarnation is gone (doStop's deferred cleanup lowers
+		// runningState and resets it on every exit), so every exit after PostStop — the one on which the hook
+		// returned an error included — has told the watchers (F25)
+		ds := c.Func("actor", "PID.doStop")
+		df := c.NewFlow(ds)
+		ps := df.Find(df.CallTo(c.FuncObj("actor", "Actor.PostStop")))
+		if len(ps) == 0 {
+			c.Undecided("doStop/PostStop⇒◇freeWatchers", "after PostStop every exit of doStop has notified the watchers", c.P.Pos(ds.Decl.Pos()), "PostStop invocation not located in doStop's flow")
+		} else {
+			w := df.MustFollow(ps, df.CallTo(fw.Obj), nil)
+			c.Check(w == nil, "doStop/PostStop⇒◇freeWatchers", "after PostStop was invoked every exit of doStop — also the one on which the hook failed — has notified the watchers", c.P.Pos(ds.Decl.Pos()), df.describe(w))
+		}
 	})
 
 	c.Rule("local-loop", func() {
